@@ -27,29 +27,34 @@ _cache = {}
 
 
 def area_current(ctx, area):
-    if area not in _cache:
+    ck = (ctx.config, area)
+    if ck in _cache:
+        return _cache[ck]
+    if True:
         crate, mods, excl = AREAS[area][:3]
         skip_types = AREAS[area][3] if len(AREAS[area]) > 3 else ()
         try:
-            known = set(area_ref(area))
+            known = set(area_ref(area, ctx))
         except (OSError, ValueError, KeyError):
             known = None
-        _cache[area] = nf.area_nf(ctx.ast, crate, mods, excl, skip_types, known)
-        note = _cache[area].pop("_inlined_new", None)
+        _cache[ck] = nf.area_nf(ctx.ast, crate, mods, excl, skip_types, known)
+        note = _cache[ck].pop("_inlined_new", None)
         if note:
             ctx.notes.append("%s: private functions not in the reviewed reference were inlined into their callers: %s" % (area, ", ".join(note["names"])))
-    return _cache[area]
+    return _cache[ck]
 
 
-def area_ref(area):
-    p = os.path.join(os.path.dirname(os.path.dirname(os.path.abspath(__file__))), "ref", "nf_%s.json" % area)
-    return json.load(open(p))["functions"]
+def area_ref(area, ctx=None):
+    base = os.path.join(os.path.dirname(os.path.dirname(os.path.abspath(__file__))), "ref")
+    if ctx is not None and ctx.config and os.path.exists(os.path.join(base, ctx.config, "nf_%s.json" % area)):
+        return json.load(open(os.path.join(base, ctx.config, "nf_%s.json" % area)))["functions"]
+    return json.load(open(os.path.join(base, "nf_%s.json" % area)))["functions"]
 
 
 def nf_rule(ctx, rule, area, only=None, floor=None):
     """one obligation per function of the area; `only` restricts to function keys containing one of the substrings"""
     cur = area_current(ctx, area)
-    ref = area_ref(area)
+    ref = area_ref(area, ctx)
     if only is not None:
         sel = lambda k: any(s in k for s in only)
         cur = {k: v for k, v in cur.items() if sel(k)}
